@@ -465,6 +465,16 @@ class Master(loader.Loader):
                 _LOGGER.info('Unscheduling: %s - %s', servername, app)
                 self.backend.delete(os.path.join(placement_node, app))
 
+            # Records that stay must carry what the model holds now: the
+            # start-up cycle may have changed identity or expiry in place.
+            for app in current & correct:
+                app_node = os.path.join(placement_node, app)
+                placement_data = self._placement_data(app)
+                if self.backend.get_default(app_node) != placement_data:
+                    _LOGGER.info('Updating: %s - %s,%s', servername, app,
+                                 self.cell.apps[app].identity)
+                    self.backend.put(app_node, placement_data)
+
         for servername, server in members.items():
             placement_node = z.path.placement(servername)
             correct = set(server.apps.keys())
